@@ -7,20 +7,25 @@ LEVEL = "proof"
 MANIFEST = dict(
     level="partial",
     text=("PARTIAL. Proved (Lean 4, all inputs): bounds-instrumented executable models of _jbl_unescape_json_string (both passes), "
-          "_jbl_parse_json_key, _jbl_ptr_pool, iwjson_ftoa, iwatoi2, iwafcmp and iwhex2bin never touch a cell outside the buffers they are "
-          "given and terminate (models answer `oob` on any out-of-range access; theorems say `oob` is unreachable; the fill pass of the "
-          "unescaper stores exactly the number of bytes the length pass announced); determinism holds by construction of the models (pure "
-          "functions) and the tie shows the real functions agree with them after an adversarial history (stale errno, recycled junk heap). "
-          "The models are tied to the code by a differential run of the real (incl. file-static) functions on exact-size heap buffers under "
-          "ASan/UBSan against the compiled Lean definitions; escape table, struct sizes and buffer sizes are regenerated from the source. "
-          "EXPLORATION ONLY (no model, no theorem): the full JSON/JS parser, patch / merge-patch decoding, jbn_at, the regular-expression "
-          "parser/compiler/VM, the ini parser, iwu_replace, iwpool_split_string, iwxstr_printf/iwpool_printf, iwstrtod and the iw_strto* "
-          "wrappers are driven with structured + mutated + truncated inputs under ASan/UBSan with a watchdog; every input is run after an "
-          "adversarial history and again in another order without it (a sample also in a fresh process) and the canonical outputs must be equal"),
+          "_jbl_parse_json_key, _jbl_ptr_pool, iwjson_ftoa, iwatoi2, iwafcmp, iwhex2bin and of the regular-expression VM (vm_add_thread / "
+          "vm_run_with_threads) never touch a cell outside the buffers/arrays they are given and terminate (the models answer `oob` on any "
+          "out-of-range access; theorems say `oob` is unreachable: for every NUL-terminated byte string, resp. every well-formed program and "
+          "every text); the fill pass of the unescaper stores exactly the bytes the length pass announced; every jp->n[] slot of a parsed "
+          "pointer is assigned; determinism holds by construction of the models (pure functions) and the tie shows the real functions agree "
+          "with them after an adversarial history (stale errno, recycled junk heap). The models are tied to the code by a differential run "
+          "of the real (incl. file-static) functions on exact-size heap buffers under ASan/UBSan against the compiled Lean definitions (VM: "
+          "on programs emitted by the real regex compiler plus well-formed damaged ones); escape table, struct sizes and buffer sizes are "
+          "regenerated from the source. EXPLORATION ONLY (no model, no theorem): the full JSON/JS parser, patch / merge-patch decoding, "
+          "jbn_at, the regular-expression parser and compiler, the ini parser, iwu_replace, iwpool_split_string, iwxstr_printf/iwpool_printf, "
+          "iwstrtod and the iw_strto* wrappers are driven with structured + mutated + truncated inputs under ASan/UBSan with a watchdog; every "
+          "input is run after an adversarial history and again in another order without it (a sample also in a fresh process) and the "
+          "canonical outputs must be equal"),
     note=("trusted: Lean kernel, translator, harness/generator, gcc+ASan/UBSan, libc snprintf/strtoll; modelled not verified: the C control flow of "
-          "the functions named; not proved: iwitoa bounds (model exists, differential only), everything listed under EXPLORATION ONLY; lengths "
-          "are assumed to fit `int` (< 2^31); null-pointer arithmetic in the length pass (d = NULL; ++d) is not flagged by gcc's sanitizers and "
-          "is not modelled; three regex defects stay open (unbounded repetition counts, recursion depth) and are reported as KNOWN-FINDING"),
+          "the functions named; not proved: iwitoa bounds (model exists, differential only), that the regex compiler emits well-formed programs "
+          "(checked on every compiled program of the run), everything listed under EXPLORATION ONLY; lengths are assumed to fit `int` (< 2^31); "
+          "null-pointer arithmetic in the length pass (d = NULL; ++d) is not flagged by gcc's sanitizers and is not modelled; three regex "
+          "defects stay open (unbounded repetition counts in parser and compiler, unbounded recursion depth) and are reported as KNOWN-FINDING; "
+          "the tree modelled is /repo plus the fix commits of branch fix-txt17"),
     technique="Lean 4 proof over bounds-instrumented executable models + differential correspondence; sanitizer/watchdog/history-independence exploration for the unmodelled rest")
 MODULE = "IwModel.Props.C17"
 THEOREMS = [
@@ -420,13 +425,14 @@ def case_hex(r):
 # ---------------------------------------------------------------- regex VM (modelled): programs come from the real compiler
 
 def gen_simple_regex(r, depth=0):
-    """(pattern, nullable): no anchors, no empty branches, and no quantifier on something that can match the empty
-    string — the corner where backtracking engines and a Pike VM differ — so python's `re` is an independent
-    reference for the match and its captures"""
-    out, nullable = [], True
+    """(pattern, nullable, has_unbounded): no anchors, no empty branches, no quantifier on something that can match the
+    empty string (the corner where backtracking engines and a Pike VM differ) and no unbounded quantifier around another
+    one (python's backtracking would go exponential) — so python's `re` is an independent reference for the match and
+    its captures"""
+    out, nullable, unb = [], True, False
     for _ in range(r.randrange(1, 4)):
         k = r.randrange(8 if depth < 2 else 5)
-        an = False
+        an, au = False, False
         if k < 3:
             a = bytes([r.choice(b"abc")])
         elif k == 3:
@@ -434,19 +440,24 @@ def gen_simple_regex(r, depth=0):
         elif k == 4:
             a = r.choice([b"[ab]", b"[^a]", b"[a-c]", b"[^bc]", b"[b-c]"])
         elif k < 7:
-            body, an = gen_simple_regex(r, depth + 1)
+            body, an, au = gen_simple_regex(r, depth + 1)
             a = b"(" + body + b")"
         else:
-            b1, n1 = gen_simple_regex(r, depth + 1)
-            b2, n2 = gen_simple_regex(r, depth + 1)
-            a, an = b"(" + b1 + b"|" + b2 + b")", n1 or n2
+            b1, n1, u1 = gen_simple_regex(r, depth + 1)
+            b2, n2, u2 = gen_simple_regex(r, depth + 1)
+            a, an, au = b"(" + b1 + b"|" + b2 + b")", n1 or n2, u1 or u2
         if not an:
-            q = r.choice([b"", b"", b"", b"?", b"*", b"+", b"{1,2}", b"{2}", b"{0,2}", b"??", b"*?", b"+?"])
+            qs = [b"", b"", b"", b"?", b"{1,2}", b"{2}", b"{0,2}", b"??"]
+            if not au:
+                qs += [b"*", b"+", b"*?", b"+?"]
+            q = r.choice(qs)
             a += q
             an = q in (b"?", b"*", b"{0,2}", b"??", b"*?")
+            au = au or q in (b"*", b"+", b"*?", b"+?")
         out.append(a)
         nullable = nullable and an
-    return b"".join(out), nullable
+        unb = unb or au
+    return b"".join(out), nullable, unb
 
 
 def prog_wf(toks):
